@@ -303,6 +303,8 @@ for _real, _fake in ((_real_threading.Lock, SimLock), (_real_threading.RLock, Si
     _OBJ_MAP[id(_real)] = _fake
 
 _installed = {}
+_REAL_LOCK_T = type(_real_threading.Lock())
+_REAL_RLOCK_T = type(_real_threading.RLock())
 
 
 def repo_root():
@@ -340,6 +342,15 @@ def install():
             f = _MODULE_MAP.get(id(val))
             if f is None:
                 f = _OBJ_MAP.get(id(val))
+            if f is None:
+                # synchronisation objects created at import time (module-level locks ...) are instances of the real
+                # primitives: a simulated thread parked while holding one would block the whole process
+                if isinstance(val, _REAL_LOCK_T):
+                    f = SimLock()
+                elif isinstance(val, _REAL_RLOCK_T):
+                    f = SimRLock()
+                elif isinstance(val, _real_threading.Event):
+                    f = SimEvent()
             if f is not None:
                 setattr(mod, attr, f)
                 replaced += 1
